@@ -303,6 +303,14 @@ func main() {
 			}
 			replayMode.src, _ = m["lua_source"].(string)
 			replayMode.sexp, _ = m["sexp"].(string)
+		} else if cs, ok := m["case"].(float64); ok && cs <= -9000 {
+			// a whole-run self-check of a runner (no operation list): replay = run the property's quick pass with the
+			// recorded seed again and see whether that self-check still fails
+			wholeRunCase = int(cs)
+			if sd, ok := m["seed"].(float64); ok {
+				*seed = int64(sd)
+			}
+			*tier = "quick"
 		} else {
 			os.Exit(doReplay(*prop, *replay))
 		}
@@ -312,6 +320,17 @@ func main() {
 		"tools/extract (go/ast → Lean constants)", "correspondence harness + driver canonicalisation"}
 	for _, fn := range fns {
 		fn(run)
+	}
+	if wholeRunCase != 0 {
+		for _, f := range run.Failures {
+			if f.CaseIdx == wholeRunCase || (f.CaseIdx <= -9100 && wholeRunCase <= -9100) {
+				fmt.Println(f.Line)
+				fmt.Printf("VIOLATION property=%s replay=%s\n", *prop, *replay)
+				os.Exit(1)
+			}
+		}
+		fmt.Println("replay: the recorded self-check no longer fails on the current tree")
+		os.Exit(0)
 	}
 	if replayMode.on {
 		bad := 0
@@ -336,6 +355,9 @@ func main() {
 }
 
 var replayExec = map[string]Executor{}
+
+// wholeRunCase: CaseIdx (≤ -9000) of the runner self-check a replay file records; 0 = not replaying one.
+var wholeRunCase int
 
 // doReplay re-runs the requests' ops of a replay file on the current tree and prints the verdicts.
 func doReplay(prop, path string) int {
